@@ -97,7 +97,7 @@ PROPERTIES = {
     ),
     'C14': dict(
         units=['u_annotate', 'u_store', 'u_off'],
-        finders=['find_offset_accept', 'find_subselectors'],
+        finders=['find_offset_accept', 'find_subselectors', 'find_annotate_failures'],
         level_text="Deductive proof (Verus/Z3) of what a failing mutation may leave behind: the generic StoreFor::insert (every store type) either succeeds or - unless a callback fails after the push, which the callback contracts rule out for in-range items - leaves store and id map unchanged, and rejects a duplicate id without changing anything; TextResource::textselection_by_offset rejects exactly the offsets that do not denote a range inside the text, before anything is inserted; AnnotationStore::annotate resolves the target before it touches any data, so an unresolvable or missing target leaves the store unchanged, and never adds an annotation when it returns an error. Full atomicity of annotate (valid new target + invalid data) does NOT hold on this code and is a recorded known finding.",
         level_note="Trusted: contracts of AnnotationStore::selector / insert_data (selector touches only text selections and nothing on failure; insert_data touches only the data side) over an opaque store with three ghost versions; callback contracts; batches (annotate_from_iter, annotate_from_file, query_mut ADD) are loops over annotate and are not separately covered.",
         design_ref='DESIGN.md §7.12',
